@@ -18,8 +18,8 @@
 import Zed.Model.JournalQueue
 namespace Zed.Store
 
-/-- `lake.maxCommitRetries`. -/
-def maxCommitRetries : Nat := 10
+/-- `lake.maxCommitRetries` (regenerated from the source, T1). -/
+def maxCommitRetries : Nat := Zed.Generated.C12.maxCommitRetries
 
 /-- Parameters of one `Branch.commit` call: pool (= its branches journal), cache slot, branch
     key, and the constructor: objects to add / to delete (checked against the tip's snapshot). -/
